@@ -6,6 +6,8 @@ Copyright 2020 William W. Kimball, Jr. MBA MSIS
 import re
 from typing import Any, List
 
+from ruamel.yaml.scalarbool import ScalarBoolean
+
 from yamlpath.enums import (
     AnchorMatches,
     PathSearchMethods,
@@ -36,6 +38,10 @@ class Searches:
 
         Returns:  (bool) True = comparision passes; False = comparison fails.
         """
+        if isinstance(haystack, ScalarBoolean):
+            # An Anchored (or freshly written) Boolean is an int subclass
+            # which prints as 1 or 0; it is still a Boolean.
+            haystack = bool(haystack)
         typed_haystack = Nodes.typed_value(haystack)
         typed_needle = Nodes.typed_value(needle)
         needle_type = type(typed_needle)
